@@ -209,7 +209,9 @@ def stopSubject (d : DSt) (fn : Option Outcome) : DSt × (CtrlRet × List Report
   let s4 := (step s4 (.stopper n timedOut)).getD s4
   let cret := (s4.items[n]?.map (·.passErr)).getD .nil
   -- the stop item is not a scenario item: remove it again
-  let s5 := { s4 with items := s4.items.take n, stopFlag := false, ctxDone := false, chanSet := d.st.chanSet, cap := d.st.cap, feed := d.st.feed, taken := d.st.taken, waiting := d.st.waiting, dropped := d.st.dropped, last := d.st.last }
+  -- (the flags of the stopped module matter only to work that outlived the stop: they stay set until the module is
+  -- started again — a service worker that ends a run after the stop leaves its loop)
+  let s5 := { s4 with items := s4.items.take n, stopFlag := timedOut, ctxDone := timedOut, chanSet := d.st.chanSet, cap := d.st.cap, feed := d.st.feed, taken := d.st.taken, waiting := d.st.waiting, dropped := d.st.dropped, last := d.st.last }
   ({ d with st := s5, ids := d.ids.map fun (id, held, os) => (id, d.shortStop && held && !os, os) },
    (cret, s4.feed.drop before), timedOut)
 
@@ -380,6 +382,8 @@ def handle (d : DSt) (line : String) : DSt × String :=
     let needed := neededDeps n d.mods []
     let (d1, srets, sreps, tmo) := stopPass d (fun m => wanted true needed m)
     let starts := passRounds n true (startRound true needed) { mods := d1.mods }
+    -- start() of the subject installs a fresh context and clears the stop flag
+    let d1 := if statusOf starts.mods (subjectName d) == 5 then { d1 with st := { d1.st with stopFlag := false, ctxDone := false } } else d1
     -- reports of the subject's own stop are already in the feed
     let d2 := pushReports { d1 with mods := starts.mods } (sreps ++ starts.reps)
     let (d3, reps) := drain d2
